@@ -66,7 +66,7 @@ def find_element_that_meets_mh(stack, metahandler):
 
 
 def create_tree_using_stacks(g: Grammar, r: ListWrapper, failures_limit=100):
-    all_stack_types = g.get_all_mentioned_symbols()
+    all_stack_types = g.get_all_mentioned_symbols_in_order()
 
     stacks: dict[type, list[Any]] = {k: [] for k in all_stack_types}
 
